@@ -52,10 +52,17 @@ func ASEIsolationLevelFromGo(lvl sql.IsolationLevel) (ASEIsolationLevel, error) 
 // ToGo returns the database/sql.IsolationLevel equivalent of the ASE
 // isolation level.
 func (lvl ASEIsolationLevel) ToGo() sql.IsolationLevel {
-	for sqlLvl, aseLvl := range sql2ase {
-		if aseLvl == lvl {
-			return sqlLvl
-		}
+	// The forward map is not injective, a reverse lookup by ranging over
+	// it would depend on the map iteration order.
+	switch lvl {
+	case ASELevelReadUncommitted:
+		return sql.LevelReadUncommitted
+	case ASELevelReadCommitted:
+		return sql.LevelReadCommitted
+	case ASELevelRepeatableRead:
+		return sql.LevelRepeatableRead
+	case ASELevelSerializableRead:
+		return sql.LevelSerializable
 	}
 
 	return sql.LevelDefault
